@@ -34,7 +34,7 @@ static Plan gen_corrupt(const std::string &prop, const std::string &tier, uint64
 			// block selector (mod blocks+1; the last one is the index block), position seed, reach path
 			p.op("flip", { kind, std::to_string(r.chance(1, 4) ? 9999 : r.below(64)), std::to_string(r.below(1u << 30)), std::to_string(r.below(4)) });
 		}
-		p.seti("tool_every", thorough ? 2 : 4);
+		p.seti("tool_every", thorough ? 2 : 3);
 	} else {
 		// C19
 		p.set("producer", r.chance(1, 2) ? "real" : "ref");
@@ -140,9 +140,13 @@ static void flip_bits(Bytes &f, uint64_t lo, uint64_t hi, const std::string &kin
 	uint64_t nbits = (hi - lo) * 8;
 	auto flip = [&](uint64_t bit) { f[lo + bit / 8] ^= (char)(1u << (bit % 8)); };
 	if (kind == "burst") {
+		// a burst lies inside the checksum field or inside the stored bytes, never across the two
+		// (on disk the checksum precedes the payload; a straddling pattern is not a burst of the CRC codeword)
+		uint64_t rlo = 0, rbits = nbits;
+		if (r.chance(1, 8)) rbits = 32; else { rlo = 32; rbits = nbits - 32; }
 		uint64_t len = 2 + r.below(31);	// 2..32 bits, first and last flipped
-		if (len > nbits) len = nbits;
-		uint64_t start = r.below(nbits - len + 1);
+		if (len > rbits) len = rbits;
+		uint64_t start = rlo + r.below(rbits - len + 1);
 		flip(start); if (len > 1) flip(start + len - 1);
 		for (uint64_t i = 1; i + 1 < len; i++) if (r.chance(1, 2)) flip(start + i);
 		desc = "burst of " + std::to_string(len) + " bits at bit " + std::to_string(start);
@@ -222,6 +226,7 @@ static RunResult exec_corrupt(const Plan &p)
 		mfmt::EncOpts eo;
 		eo.version = (int)p.geti("ref_version", 2); eo.algo = b.comp; eo.seed = (uint64_t)p.geti("ref_seed", 1);
 		eo.foreign_prefix = b.pre; eo.max_block_entries = (int)p.geti("ref_maxblk", 8);
+		eo.block_size_field = (uint64_t)p.geti("ref_seed", 1) % 3 == 0 ? 128 : 8192;
 		b.file = mfmt::encode(ents, eo);
 		res.probes[eo.version == 1 ? "base-v1" : "base-v2"]++;
 	}
